@@ -296,6 +296,32 @@ def rule_fixed_rows(ctx):
            min_cells=500, key_name="fixed_rows", max_report=8)
 
 
+def _returns_located_error(model, info, call):
+    """``raise helper(..., location)``: a function of the same module whose every return is DataFormatError(message, <parameter>)
+    and that is handed something other than None for that parameter."""
+    helper = info.module.functions.get(call.func.id) if hasattr(info.module, "functions") else None
+    if helper is None:
+        helper = model.functions.get("%s.%s" % (info.module.name, call.func.id))
+    if helper is None:
+        return False
+    parameters = [a.arg for a in helper.node.args.posonlyargs + helper.node.args.args]
+    returns = [n for n in ast.walk(helper.node) if isinstance(n, ast.Return)]
+    if not returns or any(isinstance(n, ast.Raise) for n in ast.walk(helper.node)):
+        return False
+    for node in returns:
+        made = node.value if isinstance(node.value, ast.Call) else None
+        if made is None or not (dotted(made.func) or "").endswith("DataFormatError"):
+            return False
+        location = made.args[1] if len(made.args) >= 2 else next((k.value for k in made.keywords if k.arg == "location"), None)
+        if not isinstance(location, ast.Name) or location.id not in parameters:
+            return False
+        position = parameters.index(location.id)
+        handed = call.args[position] if position < len(call.args) else next((k.value for k in call.keywords if k.arg == location.id), None)
+        if handed is None or (isinstance(handed, ast.Constant) and handed.value is None):
+            return False
+    return True
+
+
 def rule_structure(ctx):
     """O13.4: every raise in fixed_rows (and its nested automaton) is a DataFormatError that is given a location."""
     model = ctx.model
@@ -305,6 +331,8 @@ def rule_structure(ctx):
     bad = []
     for node in raises:
         call = node.exc if isinstance(node.exc, ast.Call) else None
+        if call is not None and isinstance(call.func, ast.Name) and _returns_located_error(model, info, call):
+            continue
         class_ok = call is not None and (dotted(call.func) or "").endswith("DataFormatError")
         location = None
         if call is not None:
